@@ -293,7 +293,7 @@ impl Driver for HubSeq {
             for k in [0u64, 1, 2, stored.len() as u64, stored.len() as u64 + 3] {
                 let r: AllHistoryResponse = from_json(&query(deps.as_ref(), mock_env(), QueryMsg::AllHistory { start_from: Some(k), limit: Some(100) }).unwrap()).unwrap();
                 let got: Vec<u64> = r.history.iter().map(|h| h.batch_id).collect();
-                let exp: Vec<u64> = stored.iter().map(|h| h.batch_id).filter(|b| *b > k).collect();
+                let exp: Vec<u64> = stored.iter().map(|h| h.batch_id).filter(|b| *b > k).take(100).collect();     // MAX_LIMIT of the query is 100
                 and(&mut c, "hs#C07.all_history_reports_stored_batches", got == exp);
             }
             let first: AllHistoryResponse = from_json(&query(deps.as_ref(), mock_env(), QueryMsg::AllHistory { start_from: None, limit: None }).unwrap()).unwrap();
